@@ -1,11 +1,1537 @@
-// In-crate verification harness (stub; see /verif/docs/SLICE_GUIDE.md).
+// In-crate verification harness for the sequencer ledger (C01 C02 C03 C04 C14 C18).
+// Hooked as `app::verif_ledger` (child of `app`): reaches App's private block/transaction
+// pipeline (`begin_block`, `execute_transaction`, `end_block`, `prepare_commit`, `commit`) and
+// every pub(crate) state extension trait.  Compiled only with `--features verif-ledger` under
+// cfg(test).
+//
+// Line protocol (area `ledger`), one op per line, `=> <result> | <dump>`:
+//   reset <std|legacy>
+//   begin                               (opens the next block: App::begin_block)
+//   tx <signer> <nonce> <acts>          (construct against the current state, then execute)
+//   ctor <id> <signer> <nonce> <acts>   (construct only, keep under <id>)
+//   exec <id>                           (execute a kept transaction)
+//   recv <dstchan> <srcchan> <denom> <amount> <receiver> <memo>
+//   timeout <srcchan> <denom> <amount> <sender> <memo>
+//   ack <ok|err> <srcchan> <denom> <amount> <sender> <memo>
+//   end                                 (App::end_block + commit)
+// <acts> = `;`-separated actions, fields `,`-separated (see `parse_action`).
 #![allow(clippy::pedantic, clippy::all, dead_code, unused_imports)]
 
 #[path = "/verif/harness/common.rs"]
 mod common;
 
+use std::{
+    collections::{
+        BTreeMap,
+        HashMap,
+    },
+    sync::Arc,
+};
+
+use astria_core::{
+    crypto::SigningKey,
+    primitive::v1::{
+        asset::{
+            Denom,
+            IbcPrefixed,
+        },
+        Address,
+        RollupId,
+        TransactionId,
+    },
+    protocol::{
+        fees::v1::FeeComponents,
+        transaction::v1::{
+            action::{
+                self,
+                BridgeLock,
+                BridgeSudoChange,
+                BridgeTransfer,
+                BridgeUnlock,
+                FeeAssetChange,
+                FeeChange,
+                IbcRelayerChange,
+                IbcSudoChange,
+                Ics20Withdrawal,
+                InitBridgeAccount,
+                RollupDataSubmission,
+                SudoAddressChange,
+                Transfer,
+                ValidatorUpdate,
+            },
+            Action,
+            TransactionBody,
+        },
+    },
+    Protobuf as _,
+};
+use bytes::Bytes;
+use cnidarium::{
+    ArcStateDeltaExt as _,
+    StateDelta,
+    StateRead,
+    StateWrite,
+};
+use common::{
+    Rng,
+    Trace,
+};
+use futures::TryStreamExt as _;
+use ibc_types::core::{
+    channel::{
+        channel::{
+            Counterparty as ChanCounterparty,
+            Order,
+            State as ChanState,
+        },
+        msgs::{
+            MsgAcknowledgement,
+            MsgRecvPacket,
+            MsgTimeout,
+        },
+        packet::Sequence,
+        ChannelEnd,
+        ChannelId,
+        Packet,
+        PortId,
+        TimeoutHeight,
+        Version as ChanVersion,
+    },
+    client::Height as IbcHeight,
+    commitment::MerkleProof,
+    connection::{
+        ConnectionEnd,
+        ConnectionId,
+        Counterparty as ConnCounterparty,
+        State as ConnState,
+        Version as ConnVersion,
+    },
+};
+use penumbra_ibc::component::{
+    app_handler::AppHandlerExecute as _,
+    ChannelStateWriteExt as _,
+    ConnectionStateWriteExt as _,
+};
+use penumbra_proto::core::component::ibc::v1::FungibleTokenPacketData;
+use prost::Message as _;
+use tendermint::abci;
+
+use super::App;
+use crate::{
+    accounts::{
+        StateReadExt as _,
+        StateWriteExt as _,
+    },
+    assets::{
+        StateReadExt as _,
+        StateWriteExt as _,
+    },
+    authority::{
+        StateReadExt as _,
+        StateWriteExt as _,
+    },
+    bridge::{
+        StateReadExt as _,
+        StateWriteExt as _,
+    },
+    checked_actions::use_pre_aspen_validator_updates,
+    checked_transaction::CheckedTransaction,
+    fees::{
+        StateReadExt as _,
+        StateWriteExt as _,
+    },
+    ibc::{
+        ics20_transfer::Ics20Transfer,
+        StateReadExt as _,
+        StateWriteExt as _,
+    },
+    test_utils::{
+        astria_address,
+        dummy_ibc_client_state,
+        Fixture,
+        ALICE,
+        BOB,
+        CAROL,
+        IBC_SUDO,
+        SUDO,
+    },
+};
+
+const NRIA: &str = "nria";
+const UTIA: &str = "transfer/channel-0/utia"; // sink-zone asset, allowed fee asset
+const XTOK: &str = "xtok"; // sequencer-origin asset, not a fee asset
+const UOSMO: &str = "transfer/channel-1/uosmo"; // sink-zone asset via channel-1, not a fee asset
+const ASSETS: [&str; 4] = [NRIA, UTIA, XTOK, UOSMO];
+/// every asset name that can come into existence (received foreign assets get the receiving
+/// channel's prefix)
+const ALL_ASSETS: [&str; 6] = [
+    NRIA,
+    XTOK,
+    "transfer/channel-0/utia",
+    "transfer/channel-1/utia",
+    "transfer/channel-0/uosmo",
+    "transfer/channel-1/uosmo",
+];
+
+fn key_from_tag(tag: u8) -> SigningKey {
+    let mut seed = [0u8; 32];
+    seed[0] = tag;
+    seed[31] = 0xa7;
+    SigningKey::from(seed)
+}
+
+struct World {
+    fixture: Fixture,
+    keys: BTreeMap<String, SigningKey>,
+    addr_name: HashMap<[u8; 20], String>,
+    name_addr: BTreeMap<String, [u8; 20]>,
+    asset_name: HashMap<IbcPrefixed, String>,
+    val_keys: BTreeMap<String, SigningKey>,
+    height: u64,
+    kept: HashMap<String, Arc<CheckedTransaction>>,
+    seq: u64,
+    event_ids: Vec<String>,
+    legacy: bool,
+}
+
+fn denom(s: &str) -> Denom {
+    s.parse().unwrap()
+}
+
+impl World {
+    async fn new(variant: &str) -> Self {
+        let legacy = variant == "legacy";
+        let mut keys = BTreeMap::new();
+        keys.insert("a0".to_string(), ALICE.clone());
+        keys.insert("a1".to_string(), key_from_tag(11));
+        keys.insert("a2".to_string(), CAROL.clone());
+        keys.insert("a3".to_string(), key_from_tag(13));
+        keys.insert("a4".to_string(), key_from_tag(14));
+        keys.insert("b0".to_string(), key_from_tag(20));
+        keys.insert("b1".to_string(), key_from_tag(21));
+        keys.insert("s".to_string(), SUDO.clone());
+        keys.insert("i".to_string(), IBC_SUDO.clone());
+        let mut addr_name = HashMap::new();
+        let mut name_addr = BTreeMap::new();
+        for (n, k) in &keys {
+            addr_name.insert(*k.verification_key().address_bytes(), n.clone());
+            name_addr.insert(n.clone(), *k.verification_key().address_bytes());
+        }
+        // key-less recipients
+        for (n, b) in [("r0", 0xe0u8), ("r1", 0xe1u8)] {
+            addr_name.insert([b; 20], n.to_string());
+            name_addr.insert(n.to_string(), [b; 20]);
+        }
+        let mut val_keys = BTreeMap::new();
+        val_keys.insert("va".to_string(), ALICE.clone());
+        val_keys.insert("vb".to_string(), BOB.clone());
+        val_keys.insert("vc".to_string(), CAROL.clone());
+        for i in 0..4u8 {
+            val_keys.insert(format!("v{i}"), key_from_tag(40 + i));
+        }
+        let mut asset_name = HashMap::new();
+        for a in ALL_ASSETS {
+            asset_name.insert(denom(a).to_ibc_prefixed(), a.to_string());
+        }
+
+        let mut fixture = Fixture::uninitialized(None).await;
+        let big: u128 = 1_000_000_000_000_000_000_000; // 10^21
+        let accounts: Vec<(Address, u128)> = ["a0", "a1", "a2", "a3", "a4", "b0", "b1", "s", "i"]
+            .iter()
+            .map(|n| (astria_address(&name_addr[*n]), big))
+            .collect();
+        let init = fixture.chain_initializer().with_genesis_accounts(accounts);
+        let init = if legacy {
+            // pre-Aspen storage keeps the whole validator set in one value
+            init.with_genesis_validators(vec![
+                (ALICE.verification_key(), 10),
+                (BOB.verification_key(), 10),
+            ])
+        } else {
+            init
+        };
+        init.init().await;
+        let mut height = 1;
+        if !legacy {
+            let next = fixture.run_until_blackburn_applied().await;
+            height = next.value() - 1;
+        }
+        let mut w = World {
+            fixture,
+            keys,
+            addr_name,
+            name_addr,
+            asset_name,
+            val_keys,
+            height,
+            kept: HashMap::new(),
+            seq: 1,
+            event_ids: vec![],
+            legacy,
+        };
+        w.seed_state().await;
+        w
+    }
+
+    /// Direct state writes that no transaction could produce cheaply: balances of the non-native
+    /// assets, the second fee asset, the IBC asset registry and two open ICS20 channels.
+    async fn seed_state(&mut self) {
+        let addrs: Vec<[u8; 20]> = ["a0", "a1", "a2", "a3"].iter().map(|n| self.name_addr[*n]).collect();
+        let state = self.fixture.state_mut();
+        for a in [UTIA, XTOK, UOSMO] {
+            for addr in &addrs {
+                state
+                    .put_account_balance(addr, &denom(a), 5_000_000_000_000u128)
+                    .unwrap();
+            }
+        }
+        // a whale close to u128::MAX in XTOK (overflow cases)
+        state
+            .put_account_balance(&[0xe1u8; 20], &denom(XTOK), u128::MAX - 1000)
+            .unwrap();
+        state.put_allowed_fee_asset(&denom(UTIA)).unwrap();
+        for a in [UTIA, UOSMO] {
+            let Denom::TracePrefixed(t) = denom(a) else { unreachable!() };
+            state.put_ibc_asset(t).unwrap();
+        }
+        // IBC plumbing for `send_packet_check` / `write_acknowledgement`
+        let client_id = ibc_types::core::client::ClientId::default();
+        self.fixture
+            .init_active_ibc_client(&client_id, dummy_ibc_client_state(3))
+            .await;
+        let state = self.fixture.state_mut();
+        let conn_id = ConnectionId::new(0);
+        let connection = ConnectionEnd {
+            state: ConnState::Open,
+            client_id: client_id.clone(),
+            counterparty: ConnCounterparty {
+                client_id: client_id.clone(),
+                connection_id: Some(ConnectionId::new(0)),
+                prefix: ibc_types::core::commitment::MerklePrefix {
+                    key_prefix: b"ibc".to_vec(),
+                },
+            },
+            versions: vec![ConnVersion::default()],
+            delay_period: std::time::Duration::from_secs(0),
+        };
+        state.put_new_connection(&conn_id, connection).await.unwrap();
+        for ch in 0..2u64 {
+            let channel = ChannelEnd {
+                state: ChanState::Open,
+                ordering: Order::Unordered,
+                remote: ChanCounterparty {
+                    port_id: PortId::transfer(),
+                    channel_id: Some(ChannelId::new(100 + ch)),
+                },
+                connection_hops: vec![conn_id.clone()],
+                version: ChanVersion::new("ics20-1".to_string()),
+                upgrade_sequence: 0,
+            };
+            state.put_channel(&ChannelId::new(ch), &PortId::transfer(), channel);
+        }
+    }
+
+    fn addr(&self, name: &str) -> Address {
+        astria_address(&self.name_addr[name])
+    }
+
+    fn name_of(&self, addr: &[u8; 20]) -> String {
+        self.addr_name
+            .get(addr)
+            .cloned()
+            .unwrap_or_else(|| format!("x{}", common::hex(addr)))
+    }
+
+    fn asset_of(&self, asset: &IbcPrefixed) -> String {
+        self.asset_name
+            .get(asset)
+            .cloned()
+            .unwrap_or_else(|| format!("h{}", common::hex(asset.as_bytes())))
+    }
+
+    fn opt_addr(&self, s: &str) -> Option<Address> {
+        if s == "-" {
+            None
+        } else {
+            Some(self.addr(s))
+        }
+    }
+
+    /// `<kind>,<fields…>`
+    fn parse_action(&self, s: &str) -> Action {
+        let f: Vec<&str> = s.split(',').collect();
+        match f[0] {
+            // transfer,<to>,<asset>,<amount>,<feeasset>
+            "transfer" => Action::Transfer(Transfer {
+                to: self.addr(f[1]),
+                asset: denom(f[2]),
+                amount: f[3].parse().unwrap(),
+                fee_asset: denom(f[4]),
+            }),
+            // rollup,<len>,<feeasset>
+            "rollup" => Action::RollupDataSubmission(RollupDataSubmission {
+                rollup_id: RollupId::new([1; 32]),
+                data: Bytes::from(vec![7u8; f[1].parse().unwrap()]),
+                fee_asset: denom(f[2]),
+            }),
+            // lock,<to>,<asset>,<amount>,<feeasset>,<destlen>
+            "lock" => Action::BridgeLock(BridgeLock {
+                to: self.addr(f[1]),
+                asset: denom(f[2]),
+                amount: f[3].parse().unwrap(),
+                fee_asset: denom(f[4]),
+                destination_chain_address: "d".repeat(f[5].parse().unwrap()),
+            }),
+            // unlock,<to>,<bridge>,<amount>,<feeasset>,<eventid>,<blocknum>
+            "unlock" => Action::BridgeUnlock(BridgeUnlock {
+                to: self.addr(f[1]),
+                bridge_address: self.addr(f[2]),
+                amount: f[3].parse().unwrap(),
+                fee_asset: denom(f[4]),
+                rollup_withdrawal_event_id: f[5].to_string(),
+                rollup_block_number: f[6].parse().unwrap(),
+                memo: String::new(),
+            }),
+            // btransfer,<to>,<bridge>,<amount>,<feeasset>,<eventid>,<blocknum>,<destlen>
+            "btransfer" => Action::BridgeTransfer(BridgeTransfer {
+                to: self.addr(f[1]),
+                bridge_address: self.addr(f[2]),
+                amount: f[3].parse().unwrap(),
+                fee_asset: denom(f[4]),
+                rollup_withdrawal_event_id: f[5].to_string(),
+                rollup_block_number: f[6].parse().unwrap(),
+                destination_chain_address: "d".repeat(f[7].parse().unwrap()),
+            }),
+            // initbridge,<rollup 1|2>,<asset>,<feeasset>,<sudo|->,<withdrawer|->
+            "initbridge" => Action::InitBridgeAccount(InitBridgeAccount {
+                rollup_id: RollupId::new([f[1].parse().unwrap(); 32]),
+                asset: denom(f[2]),
+                fee_asset: denom(f[3]),
+                sudo_address: self.opt_addr(f[4]),
+                withdrawer_address: self.opt_addr(f[5]),
+            }),
+            // bsudo,<bridge>,<newsudo|->,<newwithdrawer|->,<feeasset>,<disable 0|1>
+            "bsudo" => Action::BridgeSudoChange(BridgeSudoChange {
+                bridge_address: self.addr(f[1]),
+                new_sudo_address: self.opt_addr(f[2]),
+                new_withdrawer_address: self.opt_addr(f[3]),
+                fee_asset: denom(f[4]),
+                disable_deposits: f[5] == "1",
+            }),
+            "sudo" => Action::SudoAddressChange(SudoAddressChange {
+                new_address: self.addr(f[1]),
+            }),
+            "ibcsudo" => Action::IbcSudoChange(IbcSudoChange {
+                new_address: self.addr(f[1]),
+            }),
+            // relayer,<add|del>,<addr>
+            "relayer" => Action::IbcRelayerChange(if f[1] == "add" {
+                IbcRelayerChange::Addition(self.addr(f[2]))
+            } else {
+                IbcRelayerChange::Removal(self.addr(f[2]))
+            }),
+            // fee,<kind>,<base>,<mult>
+            "fee" => {
+                let b: u128 = f[2].parse().unwrap();
+                let m: u128 = f[3].parse().unwrap();
+                Action::FeeChange(match f[1] {
+                    "transfer" => FeeChange::Transfer(FeeComponents::new(b, m)),
+                    "rollup" => FeeChange::RollupDataSubmission(FeeComponents::new(b, m)),
+                    "ics20" => FeeChange::Ics20Withdrawal(FeeComponents::new(b, m)),
+                    "initbridge" => FeeChange::InitBridgeAccount(FeeComponents::new(b, m)),
+                    "lock" => FeeChange::BridgeLock(FeeComponents::new(b, m)),
+                    "unlock" => FeeChange::BridgeUnlock(FeeComponents::new(b, m)),
+                    "btransfer" => FeeChange::BridgeTransfer(FeeComponents::new(b, m)),
+                    "bsudo" => FeeChange::BridgeSudoChange(FeeComponents::new(b, m)),
+                    k => panic!("unknown fee kind {k}"),
+                })
+            }
+            // feeasset,<add|del>,<asset>
+            "feeasset" => Action::FeeAssetChange(if f[1] == "add" {
+                FeeAssetChange::Addition(denom(f[2]))
+            } else {
+                FeeAssetChange::Removal(denom(f[2]))
+            }),
+            // val,<key>,<power>
+            "val" => Action::ValidatorUpdate(ValidatorUpdate {
+                power: f[2].parse().unwrap(),
+                verification_key: self.val_keys[f[1]].verification_key(),
+                name: f[1].parse().unwrap(),
+            }),
+            // ics20,<amount>,<denom>,<channel>,<feeasset>,<bridge|->,<eventid|->,<blocknum>,<returnaddr>
+            "ics20" => {
+                let bridge = self.opt_addr(f[5]);
+                let memo = if bridge.is_some() {
+                    serde_json::to_string(&astria_core::protocol::memos::v1::Ics20WithdrawalFromRollup {
+                        rollup_block_number: f[7].parse().unwrap(),
+                        rollup_withdrawal_event_id: f[6].to_string(),
+                        rollup_return_address: "rollup-return".to_string(),
+                        memo: String::new(),
+                    })
+                    .unwrap()
+                } else {
+                    String::new()
+                };
+                Action::Ics20Withdrawal(Ics20Withdrawal {
+                    amount: f[1].parse().unwrap(),
+                    denom: denom(f[2]),
+                    destination_chain_address: "counterparty-addr".to_string(),
+                    return_address: self.addr(f[8]),
+                    timeout_height: IbcHeight::new(2, 1_000_000).unwrap(),
+                    timeout_time: u64::MAX - 1,
+                    source_channel: format!("channel-{}", f[3]).parse().unwrap(),
+                    fee_asset: denom(f[4]),
+                    memo,
+                    bridge_address: bridge,
+                    use_compat_address: false,
+                })
+            }
+            k => panic!("unknown action kind {k}"),
+        }
+    }
+
+    async fn construct(&self, signer: &str, nonce: u32, acts: &str) -> Result<Arc<CheckedTransaction>, String> {
+        let actions: Vec<Action> = acts.split(';').map(|a| self.parse_action(a)).collect();
+        let body = TransactionBody::builder()
+            .nonce(nonce)
+            .chain_id("test".to_string())
+            .actions(actions)
+            .try_build()
+            .map_err(|e| format!("body:{e}"))?;
+        let tx = body.sign(&self.keys[signer]);
+        let encoded = Bytes::from(tx.into_raw().encode_to_vec());
+        CheckedTransaction::new(encoded, self.fixture.state())
+            .await
+            .map(Arc::new)
+            .map_err(|e| {
+                let m = format!("{:#}", astria_eyre::eyre::Report::new(e));
+                dbg_err("construct", &m);
+                m
+            })
+    }
+
+    async fn execute(&mut self, tx: Arc<CheckedTransaction>) -> String {
+        match self.fixture.app.execute_transaction(tx).await {
+            Ok(events) => format!("ok {}", self.events(&events)),
+            Err(e) => {
+                let s = format!("{e:?}");
+                dbg_err("exec", &format!("{:#}", astria_eyre::eyre::Report::new(e)));
+                if s.starts_with("InvalidNonce") {
+                    "err:nonce -".to_string()
+                } else if s.starts_with("NonceOverflowed") {
+                    "err:nonce-overflow -".to_string()
+                } else {
+                    "err:exec -".to_string()
+                }
+            }
+        }
+    }
+
+    /// fee and deposit events of one transaction / handler call
+    fn events(&self, events: &[abci::Event]) -> String {
+        let mut out = Vec::new();
+        for e in events {
+            let get = |k: &str| -> String {
+                e.attributes
+                    .iter()
+                    .find(|a| a.key_str().ok() == Some(k))
+                    .and_then(|a| a.value_str().ok().map(str::to_string))
+                    .unwrap_or_default()
+            };
+            if e.kind == "tx.fees" {
+                let asset: IbcPrefixed = get("asset").parse().unwrap();
+                out.push(format!(
+                    "fee:{}:{}:{}",
+                    self.asset_of(&asset),
+                    get("feeAmount"),
+                    get("positionInTransaction")
+                ));
+            } else if e.kind == "tx.deposit" {
+                out.push(format!("dep:{}", get("amount")));
+            }
+        }
+        if out.is_empty() {
+            "-".to_string()
+        } else {
+            out.join(",")
+        }
+    }
+
+    fn packet(&mut self, src_chan: &str, dst_chan: &str, data: Vec<u8>, inbound: bool) -> Packet {
+        self.seq += 1;
+        let (chan_a, chan_b) = if inbound {
+            (format!("channel-{src_chan}"), format!("channel-{dst_chan}"))
+        } else {
+            (format!("channel-{src_chan}"), format!("channel-{dst_chan}"))
+        };
+        Packet {
+            sequence: Sequence(self.seq),
+            port_on_a: PortId::transfer(),
+            chan_on_a: chan_a.parse().unwrap(),
+            port_on_b: PortId::transfer(),
+            chan_on_b: chan_b.parse().unwrap(),
+            data,
+            timeout_height_on_b: TimeoutHeight::Never,
+            timeout_timestamp_on_b: ibc_types::timestamp::Timestamp {
+                time: None,
+            },
+        }
+    }
+
+    fn memo(&self, kind: &str) -> String {
+        match kind {
+            "-" => String::new(),
+            // deposit memo for a bridge recipient
+            "dep" => serde_json::to_string(&astria_core::protocol::memos::v1::Ics20TransferDeposit {
+                rollup_deposit_address: "rollup-dest".to_string(),
+            })
+            .unwrap(),
+            "depempty" => serde_json::to_string(&astria_core::protocol::memos::v1::Ics20TransferDeposit {
+                rollup_deposit_address: String::new(),
+            })
+            .unwrap(),
+            // memo of a withdrawal that came from a rollup (refund ⇒ deposit back to the rollup)
+            "fromrollup" => serde_json::to_string(&astria_core::protocol::memos::v1::Ics20WithdrawalFromRollup {
+                rollup_block_number: 1,
+                rollup_withdrawal_event_id: "wd".to_string(),
+                rollup_return_address: "rollup-return".to_string(),
+                memo: String::new(),
+            })
+            .unwrap(),
+            "bad" => "{not json".to_string(),
+            k => panic!("unknown memo kind {k}"),
+        }
+    }
+
+    fn party(&self, s: &str) -> String {
+        match s {
+            "bad" => "not-an-address".to_string(),
+            n => self.addr(n).to_string(),
+        }
+    }
+
+    /// recv <dstchan> <srcchan> <denom> <amount> <receiver> <memo>
+    async fn recv(&mut self, t: &[&str]) -> String {
+        let data = FungibleTokenPacketData {
+            denom: t[2].to_string(),
+            amount: t[3].to_string(),
+            sender: "counterparty-sender".to_string(),
+            receiver: self.party(t[4]),
+            memo: self.memo(t[5]),
+        };
+        // counterparty channel = 100 + our channel unless given explicitly
+        let packet = self.packet(t[1], t[0], serde_json::to_vec(&data).unwrap(), true);
+        let msg = MsgRecvPacket {
+            packet,
+            proof_commitment_on_a: MerkleProof {
+                proofs: vec![],
+            },
+            proof_height_on_a: IbcHeight::new(2, 3).unwrap(),
+            signer: String::new(),
+        };
+        let seq = self.seq;
+        let mut state_tx = self
+            .fixture
+            .app
+            .state
+            .try_begin_transaction()
+            .expect("state Arc should be unique");
+        state_tx.ephemeral_put_ibc_context(TransactionId::new([seq as u8; 32]), 0);
+        match Ics20Transfer::recv_packet_execute(&mut state_tx, &msg).await {
+            Ok(()) => {
+                let events = state_tx.apply().1;
+                let mut ack = "ack:?".to_string();
+                for e in &events {
+                    if e.kind == "write_acknowledgement" {
+                        for a in &e.attributes {
+                            if a.key_str().ok() == Some("packet_ack") {
+                                let v = a.value_str().unwrap_or_default();
+                                ack = if v.contains("result") { "ack:ok".into() } else { "ack:err".into() };
+                            }
+                        }
+                    }
+                }
+                format!("{ack} {}", self.events(&events))
+            }
+            Err(e) => {
+                dbg_err("recv", &format!("{e:#}"));
+                "err:exec -".to_string()
+            }
+        }
+    }
+
+    /// timeout <srcchan> <denom> <amount> <sender> <memo>  |  ack <ok|err> <srcchan> …
+    async fn refund(&mut self, is_ack: Option<bool>, t: &[&str]) -> String {
+        let data = FungibleTokenPacketData {
+            denom: t[1].to_string(),
+            amount: t[2].to_string(),
+            sender: self.party(t[3]),
+            receiver: "counterparty-receiver".to_string(),
+            memo: self.memo(t[4]),
+        };
+        let dst = (100 + t[0].parse::<u64>().unwrap()).to_string();
+        let packet = self.packet(t[0], &dst, serde_json::to_vec(&data).unwrap(), false);
+        let seq = self.seq;
+        let mut state_tx = self
+            .fixture
+            .app
+            .state
+            .try_begin_transaction()
+            .expect("state Arc should be unique");
+        state_tx.ephemeral_put_ibc_context(TransactionId::new([seq as u8; 32]), 0);
+        let proof = MerkleProof {
+            proofs: vec![],
+        };
+        let res = match is_ack {
+            None => {
+                let msg = MsgTimeout {
+                    packet,
+                    next_seq_recv_on_b: Sequence(1),
+                    proof_unreceived_on_b: proof,
+                    proof_height_on_b: IbcHeight::new(2, 3).unwrap(),
+                    signer: String::new(),
+                };
+                Ics20Transfer::timeout_packet_execute(&mut state_tx, &msg).await
+            }
+            Some(success) => {
+                let acknowledgement: Vec<u8> = if success {
+                    br#"{"result":"AQ=="}"#.to_vec()
+                } else {
+                    br#"{"error":"failed"}"#.to_vec()
+                };
+                let msg = MsgAcknowledgement {
+                    packet,
+                    acknowledgement,
+                    proof_acked_on_b: proof,
+                    proof_height_on_b: IbcHeight::new(2, 3).unwrap(),
+                    signer: String::new(),
+                };
+                Ics20Transfer::acknowledge_packet_execute(&mut state_tx, &msg).await
+            }
+        };
+        match res {
+            Ok(()) => {
+                let events = state_tx.apply().1;
+                format!("ok {}", self.events(&events))
+            }
+            Err(_) => "err:exec -".to_string(),
+        }
+    }
+
+    async fn begin(&mut self) -> String {
+        self.height += 1;
+        let time = tendermint::Time::from_unix_timestamp(100, 2 + self.height as u32).unwrap();
+        let begin_block = abci::request::BeginBlock {
+            hash: tendermint::Hash::default(),
+            byzantine_validators: vec![],
+            header: tendermint::block::Header {
+                app_hash: self.fixture.app.app_hash.clone(),
+                chain_id: "test".try_into().unwrap(),
+                consensus_hash: tendermint::Hash::default(),
+                data_hash: Some(tendermint::Hash::default()),
+                evidence_hash: Some(tendermint::Hash::default()),
+                height: (self.height as u32).into(),
+                last_block_id: None,
+                last_commit_hash: Some(tendermint::Hash::default()),
+                last_results_hash: Some(tendermint::Hash::default()),
+                next_validators_hash: tendermint::Hash::default(),
+                proposer_address: [0u8; 20].to_vec().try_into().unwrap(),
+                time,
+                validators_hash: tendermint::Hash::default(),
+                version: tendermint::block::header::Version {
+                    app: 0,
+                    block: 0,
+                },
+            },
+            last_commit_info: tendermint::abci::types::CommitInfo {
+                round: 0u16.into(),
+                votes: vec![],
+            },
+        };
+        match self.fixture.app.begin_block(&begin_block).await {
+            Ok(_) => "ok -".to_string(),
+            Err(e) => format!("err:{e:#} -"),
+        }
+    }
+
+    async fn end(&mut self) -> String {
+        let sudo = self.fixture.state().get_sudo_address().await.unwrap();
+        let deposits = self.deposits_dump();
+        let res = self.fixture.app.end_block(self.height, &sudo).await;
+        let out = match res {
+            Ok(end_block) => {
+                let mut ups: Vec<String> = end_block
+                    .validator_updates
+                    .iter()
+                    .map(|u| {
+                        let addr = tendermint::account::Id::from(u.pub_key);
+                        let mut a = [0u8; 20];
+                        a.copy_from_slice(addr.as_bytes());
+                        format!("{}:{}", self.val_name(&a), u.power.value())
+                    })
+                    .collect();
+                ups.sort();
+                format!(
+                    "ok vu={} blockdeps={}",
+                    if ups.is_empty() { "-".to_string() } else { ups.join(",") },
+                    deposits
+                )
+            }
+            Err(e) => format!("err:{e:#} -"),
+        };
+        let storage = self.fixture.storage();
+        self.fixture.app.prepare_commit(storage.clone(), vec![]).await.unwrap();
+        self.fixture.app.commit(storage).await.unwrap();
+        out
+    }
+
+    fn val_name(&self, addr: &[u8; 20]) -> String {
+        for (n, k) in &self.val_keys {
+            if k.verification_key().address_bytes() == addr {
+                return n.clone();
+            }
+        }
+        format!("x{}", common::hex(addr))
+    }
+
+    fn deposits_dump(&self) -> String {
+        let cached = self.fixture.state().get_cached_block_deposits();
+        let mut all: Vec<String> = Vec::new();
+        for (rollup, deps) in &cached {
+            for (i, d) in deps.iter().enumerate() {
+                all.push(format!(
+                    "{}:{}:{}:{}:{}:{}:{}",
+                    rollup.as_bytes()[0],
+                    i,
+                    self.name_of(&d.bridge_address.bytes()),
+                    self.asset_of(&d.asset.to_ibc_prefixed()),
+                    d.amount,
+                    d.destination_chain_address.len(),
+                    d.source_action_index
+                ));
+            }
+        }
+        all.sort();
+        if all.is_empty() {
+            "-".to_string()
+        } else {
+            all.join(",")
+        }
+    }
+
+    async fn dump(&self) -> String {
+        let state = self.fixture.state();
+        let mut parts: Vec<String> = Vec::new();
+        // balances and nonces: raw scan of the `accounts/` prefix so that unknown addresses show up
+        let mut bal: Vec<String> = Vec::new();
+        let mut nonces: Vec<String> = Vec::new();
+        {
+            use base64::Engine as _;
+            let mut stream = std::pin::pin!(state.prefix_raw("accounts/"));
+            let mut keys: Vec<String> = Vec::new();
+            while let Some((k, _)) = stream.try_next().await.unwrap() {
+                keys.push(k);
+            }
+            for k in keys {
+                let rest = &k["accounts/".len()..];
+                let (a64, tail) = rest.split_once('/').unwrap();
+                let raw = base64::engine::general_purpose::URL_SAFE.decode(a64).unwrap();
+                let mut addr = [0u8; 20];
+                addr.copy_from_slice(&raw);
+                if tail == "nonce" {
+                    let n = state.get_account_nonce(&addr).await.unwrap();
+                    if n != 0 {
+                        nonces.push(format!("{}:{}", self.name_of(&addr), n));
+                    }
+                } else if let Some(hexasset) = tail.strip_prefix("balance/") {
+                    let asset: IbcPrefixed = hexasset.parse().unwrap();
+                    let b = state.get_account_balance(&addr, &asset).await.unwrap();
+                    if b != 0 {
+                        bal.push(format!("{}:{}:{}", self.name_of(&addr), self.asset_of(&asset), b));
+                    }
+                }
+            }
+        }
+        bal.sort();
+        nonces.sort();
+        parts.push(format!("bal={}", join(&bal)));
+        parts.push(format!("nonce={}", join(&nonces)));
+        // escrow
+        let mut esc: Vec<String> = Vec::new();
+        for ch in 0..2u64 {
+            for a in ALL_ASSETS {
+                let v = state
+                    .get_ibc_channel_balance(&ChannelId::new(ch), &denom(a))
+                    .await
+                    .unwrap();
+                if v != 0 {
+                    esc.push(format!("{ch}:{a}:{v}"));
+                }
+            }
+        }
+        esc.sort();
+        parts.push(format!("esc={}", join(&esc)));
+        // bridge accounts + withdrawal events
+        let mut bridges: Vec<String> = Vec::new();
+        let mut wd: Vec<String> = Vec::new();
+        for (n, addr) in &self.name_addr {
+            if let Some(rollup) = state.get_bridge_account_rollup_id(addr).await.unwrap() {
+                let asset = state.get_bridge_account_ibc_asset(addr).await.unwrap();
+                let sudo = state.get_bridge_account_sudo_address(addr).await.unwrap();
+                let wdr = state.get_bridge_account_withdrawer_address(addr).await.unwrap();
+                let disabled = state.is_bridge_account_disabled(addr).await.unwrap();
+                bridges.push(format!(
+                    "{n}:{}:{}:{}:{}:{}",
+                    rollup.as_bytes()[0],
+                    self.asset_of(&asset),
+                    sudo.map_or("-".to_string(), |a| self.name_of(&a)),
+                    wdr.map_or("-".to_string(), |a| self.name_of(&a)),
+                    u8::from(disabled)
+                ));
+            }
+            for id in &self.event_ids {
+                if let Some(blk) = state
+                    .get_withdrawal_event_rollup_block_number(addr, id)
+                    .await
+                    .unwrap()
+                {
+                    wd.push(format!("{n}:{id}:{blk}"));
+                }
+            }
+        }
+        wd.sort();
+        bridges.sort();
+        parts.push(format!("bridges={}", join(&bridges)));
+        parts.push(format!("wd={}", join(&wd)));
+        // authorities
+        let sudo = state.get_sudo_address().await.unwrap();
+        let ibcsudo = state.get_ibc_sudo_address().await.unwrap();
+        let mut relayers: Vec<String> = Vec::new();
+        for (n, addr) in &self.name_addr {
+            if state.is_ibc_relayer(addr).await.unwrap() {
+                relayers.push(n.clone());
+            }
+        }
+        parts.push(format!(
+            "sudo={} ibcsudo={} relayers={}",
+            self.name_of(&sudo),
+            self.name_of(&ibcsudo),
+            join(&relayers)
+        ));
+        // fee schedule (the kinds that carry a fee asset) and allowed fee assets
+        let mut fees: Vec<String> = Vec::new();
+        macro_rules! fee {
+            ($name:literal, $t:ty) => {
+                if let Some(f) = state.get_fees::<$t>().await.unwrap() {
+                    fees.push(format!("{}:{}:{}", $name, f.base(), f.multiplier()));
+                }
+            };
+        }
+        fee!("transfer", Transfer);
+        fee!("rollup", RollupDataSubmission);
+        fee!("ics20", Ics20Withdrawal);
+        fee!("initbridge", InitBridgeAccount);
+        fee!("lock", BridgeLock);
+        fee!("unlock", BridgeUnlock);
+        fee!("btransfer", BridgeTransfer);
+        fee!("bsudo", BridgeSudoChange);
+        fees.sort();
+        let mut feeassets: Vec<String> = state
+            .allowed_fee_assets()
+            .try_collect::<Vec<IbcPrefixed>>()
+            .await
+            .unwrap()
+            .iter()
+            .map(|a| self.asset_of(a))
+            .collect();
+        feeassets.sort();
+        parts.push(format!("fees={} feeassets={}", join(&fees), join(&feeassets)));
+        // validators
+        let mut vals: Vec<String> = Vec::new();
+        let cnt: String;
+        if use_pre_aspen_validator_updates(state).await.unwrap() {
+            let set = state.pre_aspen_get_validator_set().await.unwrap();
+            for u in set.updates() {
+                vals.push(format!(
+                    "{}:{}",
+                    self.val_name(u.verification_key.address_bytes()),
+                    u.power
+                ));
+            }
+            cnt = "pre".to_string();
+        } else {
+            for (n, k) in &self.val_keys {
+                if let Some(v) = state.get_validator(k.verification_key().address_bytes()).await.unwrap() {
+                    vals.push(format!("{n}:{}", v.power));
+                }
+            }
+            cnt = state.get_validator_count().await.unwrap().to_string();
+        }
+        vals.sort();
+        let upd = state.get_block_validator_updates().await.unwrap();
+        let mut vupd: Vec<String> = upd
+            .updates()
+            .map(|u| format!("{}:{}", self.val_name(u.verification_key.address_bytes()), u.power))
+            .collect();
+        vupd.sort();
+        parts.push(format!("vals={} cnt={} vupd={}", join(&vals), cnt, join(&vupd)));
+        // ephemeral: block fees, cached deposits
+        let mut bfees: Vec<String> = state
+            .get_block_fees()
+            .iter()
+            .map(|(a, v)| format!("{}:{}", self.asset_of(a), v))
+            .collect();
+        bfees.sort();
+        parts.push(format!("bfees={} deps={}", join(&bfees), self.deposits_dump()));
+        parts.join(" ")
+    }
+
+    fn note_event_ids(&mut self, acts: &str) {
+        for a in acts.split(';') {
+            let f: Vec<&str> = a.split(',').collect();
+            let id = match f[0] {
+                "unlock" | "btransfer" => Some(f[5]),
+                "ics20" => Some(f[6]),
+                _ => None,
+            };
+            if let Some(id) = id {
+                if id != "-" && !self.event_ids.iter().any(|e| e == id) {
+                    self.event_ids.push(id.to_string());
+                }
+            }
+        }
+    }
+}
+
+fn dbg_err(what: &str, msg: &str) {
+    if std::env::var("VERIF_DEBUG").is_ok() {
+        eprintln!("DEBUG {what}: {msg}");
+    }
+}
+
+fn join(v: &[String]) -> String {
+    if v.is_empty() {
+        "-".to_string()
+    } else {
+        v.join(",")
+    }
+}
+
+async fn run_op(world: &mut Option<World>, op: &str) -> String {
+    let t: Vec<&str> = op.split(' ').collect();
+    if t[0] == "reset" {
+        *world = Some(World::new(t[1]).await);
+        let w = world.as_ref().unwrap();
+        return format!("ok - | {}", w.dump().await);
+    }
+    let w = world.as_mut().expect("reset must come first");
+    let res = match t[0] {
+        "begin" => w.begin().await,
+        "end" => w.end().await,
+        "tx" => {
+            w.note_event_ids(t[3]);
+            match w.construct(t[1], t[2].parse().unwrap(), t[3]).await {
+                Ok(tx) => w.execute(tx).await,
+                Err(_) => "err:construct -".to_string(),
+            }
+        }
+        "ctor" => {
+            w.note_event_ids(t[4]);
+            match w.construct(t[2], t[3].parse().unwrap(), t[4]).await {
+                Ok(tx) => {
+                    w.kept.insert(t[1].to_string(), tx);
+                    "ok -".to_string()
+                }
+                Err(_) => "err:construct -".to_string(),
+            }
+        }
+        "exec" => match w.kept.remove(t[1]) {
+            Some(tx) => w.execute(tx).await,
+            None => "err:unknown-id -".to_string(),
+        },
+        "recv" => w.recv(&t[1..]).await,
+        "timeout" => w.refund(None, &t[1..]).await,
+        "ack" => w.refund(Some(t[1] == "ok"), &t[2..]).await,
+        _ => panic!("unknown op {op}"),
+    };
+    format!("{res} | {}", w.dump().await)
+}
+
+// ---------------------------------------------------------------------------------------
+// generator
+// ---------------------------------------------------------------------------------------
+
+const USERS: [&str; 5] = ["a0", "a1", "a2", "a3", "a4"];
+const SIGNERS: [&str; 9] = ["a0", "a1", "a2", "a3", "a4", "b0", "b1", "s", "i"];
+const RECIPIENTS: [&str; 8] = ["a0", "a1", "a2", "a3", "a4", "r0", "r1", "s"];
+
+/// What the generator knows about the chain: parsed from the implementation's last dump, so
+/// that most generated operations are valid against the *current* state.
+#[derive(Default, Clone)]
+struct View {
+    nonces: HashMap<String, u32>,
+    bridges: Vec<(String, String, String, String, bool)>, // name, asset, sudo, withdrawer, disabled
+    sudo: String,
+    ibcsudo: String,
+    relayers: Vec<String>,
+    feeassets: Vec<String>,
+    vals: Vec<String>,
+    wd: Vec<(String, String)>,
+    esc: Vec<(u64, String, u128)>,
+}
+
+fn view_of(dump: &str) -> View {
+    let mut v = View::default();
+    for part in dump.split(' ') {
+        let Some((k, val)) = part.split_once('=') else { continue };
+        let items: Vec<&str> = if val == "-" { vec![] } else { val.split(',').collect() };
+        match k {
+            "nonce" => {
+                for it in items {
+                    let (a, n) = it.split_once(':').unwrap();
+                    v.nonces.insert(a.to_string(), n.parse().unwrap());
+                }
+            }
+            "bridges" => {
+                for it in items {
+                    let f: Vec<&str> = it.split(':').collect();
+                    v.bridges.push((f[0].into(), f[2].into(), f[3].into(), f[4].into(), f[5] == "1"));
+                }
+            }
+            "sudo" => v.sudo = val.to_string(),
+            "ibcsudo" => v.ibcsudo = val.to_string(),
+            "relayers" => v.relayers = items.iter().map(|s| s.to_string()).collect(),
+            "feeassets" => v.feeassets = items.iter().map(|s| s.to_string()).collect(),
+            "vals" => v.vals = items.iter().map(|s| s.split(':').next().unwrap().to_string()).collect(),
+            "wd" => {
+                for it in items {
+                    let f: Vec<&str> = it.split(':').collect();
+                    v.wd.push((f[0].into(), f[1].into()));
+                }
+            }
+            "esc" => {
+                for it in items {
+                    let f: Vec<&str> = it.split(':').collect();
+                    v.esc.push((f[0].parse().unwrap(), f[1].into(), f[2].parse().unwrap()));
+                }
+            }
+            _ => {}
+        }
+    }
+    v
+}
+
+struct Gen {
+    rng: Rng,
+    view: View,
+    event_no: u32,
+    kept_no: u32,
+}
+
+fn stat(s: &str) -> &'static str {
+    for c in SIGNERS.iter().chain(RECIPIENTS.iter()) {
+        if *c == s {
+            return c;
+        }
+    }
+    "a0"
+}
+
+impl Gen {
+    fn amount(&mut self, adversarial: bool) -> u128 {
+        if !adversarial {
+            return self.rng.range(1, 50_000) as u128;
+        }
+        match self.rng.below(12) {
+            0 => 0,
+            1 => 1,
+            2 => u128::MAX,
+            3 => u128::MAX - 999,
+            4 => 5_000_000_000_000,
+            5 => 5_000_000_000_001,
+            6 => 1_000_000_000_000_000_000_000,
+            _ => self.rng.range(1, 2_000_000) as u128,
+        }
+    }
+
+    fn fee_asset(&mut self, adversarial: bool) -> String {
+        if adversarial && self.rng.chance(25) {
+            return (*self.rng.pick(&[XTOK, UTIA, NRIA, UOSMO])).to_string();
+        }
+        if self.view.feeassets.is_empty() {
+            NRIA.to_string()
+        } else {
+            let i = self.rng.below(self.view.feeassets.len() as u64) as usize;
+            self.view.feeassets[i].clone()
+        }
+    }
+
+    fn event_id(&mut self, adversarial: bool) -> String {
+        if adversarial && self.event_no > 0 && self.rng.chance(60) {
+            format!("e{}", self.rng.below(self.event_no as u64))
+        } else {
+            self.event_no += 1;
+            format!("e{}", self.event_no - 1)
+        }
+    }
+
+    fn bridge(&mut self, adversarial: bool) -> (String, String, String, String, bool) {
+        if self.view.bridges.is_empty() || (adversarial && self.rng.chance(12)) {
+            return ((*self.rng.pick(&["a4", "b0", "b1"])).to_string(), NRIA.into(), "a0".into(), "a1".into(), false);
+        }
+        let i = self.rng.below(self.view.bridges.len() as u64) as usize;
+        self.view.bridges[i].clone()
+    }
+
+    /// Returns (signer, group, action).
+    fn action(&mut self, group: Option<u8>, adversarial: bool) -> (String, u8, String) {
+        let user = (*self.rng.pick(&USERS)).to_string();
+        let non_bridge_user = {
+            let c: Vec<&&str> = USERS.iter().filter(|u| !self.view.bridges.iter().any(|b| b.0 == **u)).collect();
+            if c.is_empty() { "a0".to_string() } else { (**self.rng.pick(&c)).to_string() }
+        };
+        let to = (*self.rng.pick(&RECIPIENTS)).to_string();
+        let fa = self.fee_asset(adversarial);
+        let sudo = self.view.sudo.clone();
+        let g = group.unwrap_or_else(|| match self.rng.below(100) {
+            0..=3 => 1,
+            4..=15 => 2,
+            16..=24 => 3,
+            _ => 4,
+        });
+        match g {
+            1 => {
+                let a = if self.rng.chance(60) {
+                    format!("sudo,{}", self.rng.pick(&["s", "a0", "a3"]))
+                } else {
+                    format!("ibcsudo,{}", self.rng.pick(&["i", "a0", "a2"]))
+                };
+                (sudo, 1, a)
+            }
+            2 => match self.rng.below(10) {
+                0..=2 => {
+                    let add = self.rng.chance(50);
+                    let pool = ["i", "a0", "a2", "a3"];
+                    let cand: Vec<&&str> = pool
+                        .iter()
+                        .filter(|x| adversarial || (self.view.relayers.iter().any(|r| r == **x) != add))
+                        .collect();
+                    let x = if cand.is_empty() { "a3" } else { **self.rng.pick(&cand) };
+                    (self.view.ibcsudo.clone(), 2, format!("relayer,{},{x}", if add { "add" } else { "del" }))
+                }
+                3..=6 => {
+                    let kind = *self.rng.pick(&["transfer", "rollup", "ics20", "initbridge", "lock", "unlock", "btransfer", "bsudo"]);
+                    let (b, m) = match self.rng.below(10) {
+                        0 => (0u128, 0u128),
+                        1 if adversarial => (u128::MAX, 1),
+                        2 if adversarial => (1, u128::MAX),
+                        _ => (self.rng.range(0, 60) as u128, self.rng.range(0, 2000) as u128),
+                    };
+                    (sudo, 2, format!("fee,{kind},{b},{m}"))
+                }
+                _ => {
+                    let add = self.rng.chance(50);
+                    let pool = [NRIA, UTIA, XTOK];
+                    let cand: Vec<&&str> = pool
+                        .iter()
+                        .filter(|x| adversarial || (self.view.feeassets.iter().any(|r| r == **x) != add))
+                        .collect();
+                    let x = if cand.is_empty() { XTOK } else { **self.rng.pick(&cand) };
+                    (sudo, 2, format!("feeasset,{},{x}", if add { "add" } else { "del" }))
+                }
+            },
+            3 => {
+                if self.rng.chance(35) {
+                    let s = *self.rng.pick(&["a4", "b0", "b1", "a3"]);
+                    let sd = *self.rng.pick(&["-", "a0", "a3"]);
+                    let wd = *self.rng.pick(&["-", "a1", "a3"]);
+                    let asset = if adversarial { *self.rng.pick(&ASSETS) } else { NRIA };
+                    (s.to_string(), 3, format!("initbridge,{},{asset},{fa},{sd},{wd}", self.rng.range(1, 2)))
+                } else {
+                    let b = self.bridge(adversarial);
+                    let ns = *self.rng.pick(&["-", "a0", "a2", "a3"]);
+                    let nw = *self.rng.pick(&["-", "a1", "a2", "a3"]);
+                    (b.2.clone(), 3, format!("bsudo,{},{ns},{nw},{fa},{}", b.0, u8::from(self.rng.chance(25))))
+                }
+            }
+            _ => match self.rng.below(100) {
+                0..=29 => {
+                    let amt = self.amount(adversarial);
+                    (non_bridge_user, 4, format!("transfer,{to},{},{amt},{fa}", self.rng.pick(&ASSETS)))
+                }
+                30..=37 => (user, 4, format!("rollup,{},{fa}", self.rng.pick(&[1usize, 1, 3, 100, 1000, 0]))),
+                38..=52 => {
+                    let b = self.bridge(adversarial);
+                    let amt = self.amount(adversarial);
+                    let asset = if adversarial && self.rng.chance(30) { (*self.rng.pick(&ASSETS)).to_string() } else { b.1.clone() };
+                    (non_bridge_user, 4, format!("lock,{},{asset},{amt},{fa},{}", b.0, self.rng.pick(&[0usize, 5, 20])))
+                }
+                53..=66 => {
+                    let b = self.bridge(adversarial);
+                    let amt = self.amount(adversarial);
+                    let id = self.event_id(adversarial);
+                    (b.3.clone(), 4, format!("unlock,{to},{},{amt},{fa},{id},{}", b.0, self.rng.range(1, 9)))
+                }
+                67..=74 => {
+                    let b = self.bridge(adversarial);
+                    let others: Vec<String> = self.view.bridges.iter().filter(|x| x.0 != b.0).map(|x| x.0.clone()).collect();
+                    let other = if others.is_empty() { "b1".to_string() } else { self.rng.pick(&others).clone() };
+                    let amt = self.amount(adversarial);
+                    let id = self.event_id(adversarial);
+                    (
+                        b.3.clone(),
+                        4,
+                        format!("btransfer,{other},{},{amt},{fa},{id},{},{}", b.0, self.rng.range(1, 9), self.rng.pick(&[1usize, 7])),
+                    )
+                }
+                75..=84 => {
+                    let remove = self.rng.chance(35);
+                    let pool = ["va", "vb", "vc", "v0", "v1", "v2"];
+                    let cand: Vec<&&str> = pool
+                        .iter()
+                        .filter(|k| adversarial || !remove || self.view.vals.iter().any(|v| v == **k))
+                        .collect();
+                    let key = if cand.is_empty() { "va" } else { **self.rng.pick(&cand) };
+                    let power = if remove { 0 } else { *self.rng.pick(&[1u32, 10, 25]) };
+                    (sudo, 4, format!("val,{key},{power}"))
+                }
+                _ => {
+                    let amt = self.amount(adversarial);
+                    let from_bridge = self.rng.chance(35) && !self.view.bridges.is_empty();
+                    let denom = *self.rng.pick(&ASSETS);
+                    let ch = self.rng.below(2);
+                    if from_bridge {
+                        let b = self.bridge(adversarial);
+                        let id = self.event_id(adversarial);
+                        (
+                            b.3.clone(),
+                            4,
+                            format!("ics20,{amt},{},{ch},{fa},{},{id},{},{}", b.1, b.0, self.rng.range(1, 9), self.rng.pick(&USERS)),
+                        )
+                    } else {
+                        (non_bridge_user.clone(), 4, format!("ics20,{amt},{denom},{ch},{fa},-,-,1,{non_bridge_user}"))
+                    }
+                }
+            },
+        }
+    }
+
+    fn tx_ops(&mut self, ops: &mut Vec<String>) {
+        let adversarial = self.rng.chance(30);
+        let (signer0, group, first) = self.action(None, adversarial);
+        let n_actions = if group == 1 || group == 3 {
+            if adversarial && self.rng.chance(10) { 2 } else { 1 }
+        } else {
+            match self.rng.below(10) {
+                0..=5 => 1,
+                6..=7 => 2,
+                8 => 3,
+                _ => 5,
+            }
+        };
+        let mut acts = vec![first];
+        for _ in 1..n_actions {
+            let g = if adversarial && self.rng.chance(15) { None } else { Some(group) };
+            acts.push(self.action(g, adversarial).2);
+        }
+        let signer: String = if adversarial && self.rng.chance(40) {
+            (*self.rng.pick(&SIGNERS)).to_string()
+        } else if SIGNERS.contains(&signer0.as_str()) {
+            signer0
+        } else {
+            "a0".to_string()
+        };
+        let cur = *self.view.nonces.get(&signer).unwrap_or(&0);
+        let nonce = if adversarial && self.rng.chance(25) {
+            match self.rng.below(4) {
+                0 => cur.saturating_sub(1),
+                1 => cur + 1,
+                2 => cur + 5,
+                _ => 0,
+            }
+        } else {
+            cur
+        };
+        let acts = acts.join(";");
+        if self.rng.chance(20) {
+            // construct now, execute later (after other operations changed the state)
+            self.kept_no += 1;
+            let id = format!("k{}", self.kept_no);
+            ops.push(format!("ctor {id} {signer} {nonce} {acts}"));
+            ops.push(format!("?exec {id}"));
+        } else {
+            ops.push(format!("tx {signer} {nonce} {acts}"));
+        }
+    }
+
+    fn packet_op(&mut self) -> String {
+        let adversarial = self.rng.chance(35);
+        let ch = self.rng.below(2);
+        let amt = if adversarial {
+            match self.rng.below(6) {
+                0 => u128::MAX,
+                1 => 0,
+                _ => self.rng.range(1, 900_000) as u128,
+            }
+        } else {
+            self.rng.range(1, 20_000) as u128
+        };
+        let bridge_rcpt = self.rng.chance(40) && !self.view.bridges.is_empty();
+        let b = self.bridge(false);
+        let rcpt: String = if bridge_rcpt {
+            b.0.clone()
+        } else if adversarial && self.rng.chance(15) {
+            "bad".to_string()
+        } else {
+            (*self.rng.pick(&RECIPIENTS)).to_string()
+        };
+        let memo = if bridge_rcpt {
+            if adversarial { *self.rng.pick(&["dep", "depempty", "bad", "-"]) } else { "dep" }
+        } else if adversarial {
+            *self.rng.pick(&["-", "dep", "bad"])
+        } else {
+            "-"
+        };
+        match self.rng.below(10) {
+            0..=5 => {
+                // inbound: our own asset coming home (prefixed with the counterparty's
+                // port/channel) or a foreign asset
+                let src = 100 + ch;
+                let denom = if bridge_rcpt && !adversarial {
+                    // the bridge's own asset, coming home if it is sequencer-origin
+                    if b.1.starts_with("transfer/channel-") {
+                        b.1.splitn(3, '/').nth(2).unwrap().to_string()
+                    } else {
+                        format!("transfer/channel-{src}/{}", b.1)
+                    }
+                } else {
+                    match self.rng.below(7) {
+                        0 | 1 => format!("transfer/channel-{src}/nria"),
+                        2 => format!("transfer/channel-{src}/xtok"),
+                        3 | 4 => "utia".to_string(),
+                        5 => "uosmo".to_string(),
+                        _ => format!("transfer/channel-{src}/transfer/channel-{ch}/utia"),
+                    }
+                };
+                format!("recv {ch} {src} {denom} {amt} {rcpt} {memo}")
+            }
+            k => {
+                let denom = *self.rng.pick(&[NRIA, XTOK, UTIA, UOSMO]);
+                let from_rollup = self.rng.chance(30) && !self.view.bridges.is_empty();
+                let (sender, memo, denom) = if from_rollup {
+                    (b.0.clone(), "fromrollup", if adversarial { denom.to_string() } else { b.1.clone() })
+                } else {
+                    (rcpt, "-", denom.to_string())
+                };
+                if k <= 7 {
+                    format!("timeout {ch} {denom} {amt} {sender} {memo}")
+                } else {
+                    format!("ack {} {ch} {denom} {amt} {sender} {memo}", self.rng.pick(&["ok", "err", "err"]))
+                }
+            }
+        }
+    }
+}
+
 #[test]
 fn driver() {
-    let trace = common::Trace::from_env();
+    common::silence_panics();
+    let rt = tokio::runtime::Builder::new_current_thread().enable_all().build().unwrap();
+    let mut trace = Trace::from_env();
+    let seed = Rng::from_env().0;
+    rt.block_on(async {
+        let mut world: Option<World> = None;
+        if let Some(lines) = common::replay_lines() {
+            for op in lines {
+                let op = op.strip_prefix("ledger ").unwrap_or(&op).to_string();
+                let res = run_op(&mut world, &op).await;
+                trace.line(&format!("ledger {op} => {res}"));
+            }
+            return;
+        }
+        for op in common::corpus_lines() {
+            let op = op.strip_prefix("ledger ").unwrap_or(&op).to_string();
+            let res = run_op(&mut world, &op).await;
+            trace.line(&format!("ledger {op} => {res}"));
+        }
+        let thorough = common::is_thorough();
+        let sessions = if thorough { 40 } else { 6 };
+        let blocks = if thorough { 40 } else { 14 };
+        for s in 0..sessions {
+            let variant = if s % 3 == 2 { "legacy" } else { "std" };
+            run_generated(&mut world, &mut trace, seed.wrapping_add(s as u64 * 7919), variant, blocks).await;
+        }
+    });
     trace.finish();
+}
+
+/// Generates and executes one session. The generator is adaptive: it reads the chain state
+/// back from the implementation's dump after every op so that most operations are
+/// valid-by-construction; every decision derives from the seed and the replies, and the trace
+/// records the concrete ops, so a trace replays exactly.
+async fn run_generated(world: &mut Option<World>, trace: &mut Trace, seed: u64, variant: &str, blocks: usize) {
+    let mut g = Gen {
+        rng: Rng(seed),
+        view: View::default(),
+        event_no: 0,
+        kept_no: 0,
+    };
+    let mut pending_exec: Vec<(String, usize)> = Vec::new();
+    let prologue = [
+        format!("reset {variant}"),
+        "begin".to_string(),
+        "tx b0 0 initbridge,1,nria,nria,a0,a1".to_string(),
+        "tx b1 0 initbridge,2,nria,nria,-,a1".to_string(),
+        "tx a0 0 ics20,700000,nria,0,nria,-,-,1,a0;ics20,300000,xtok,1,nria,-,-,1,a0".to_string(),
+        "tx a1 0 lock,b0,nria,250000,nria,5;lock,b1,nria,150000,transfer/channel-0/utia,0".to_string(),
+        "end".to_string(),
+    ];
+    for op in prologue {
+        let res = run_op(world, &op).await;
+        g.view = view_of(res.split(" | ").nth(1).unwrap_or(""));
+        trace.line(&format!("ledger {op} => {res}"));
+    }
+    for _ in 0..blocks {
+        let n = g.rng.range(1, 7);
+        let mut i = 0;
+        let mut queue: Vec<String> = vec!["begin".to_string()];
+        loop {
+            // generate lazily so that each op sees the state left by the previous one
+            if queue.is_empty() {
+                if i < n {
+                    i += 1;
+                    if g.rng.chance(22) {
+                        queue.push(g.packet_op());
+                    } else {
+                        g.tx_ops(&mut queue);
+                    }
+                } else if i == n {
+                    i += 1;
+                    queue.push("end".to_string());
+                } else {
+                    break;
+                }
+            }
+            let op = queue.remove(0);
+            if let Some(rest) = op.strip_prefix("?exec ") {
+                pending_exec.push((rest.to_string(), g.rng.range(1, 3) as usize));
+                continue;
+            }
+            let res = run_op(world, &op).await;
+            g.view = view_of(res.split(" | ").nth(1).unwrap_or(""));
+            trace.line(&format!("ledger {op} => {res}"));
+            let mut still = Vec::new();
+            for (id, left) in pending_exec.drain(..) {
+                if (left == 0 && op != "end") || queue.first().map(String::as_str) == Some("end") {
+                    let eop = format!("exec {id}");
+                    let res = run_op(world, &eop).await;
+                    g.view = view_of(res.split(" | ").nth(1).unwrap_or(""));
+                    trace.line(&format!("ledger {eop} => {res}"));
+                } else {
+                    still.push((id, left.saturating_sub(1)));
+                }
+            }
+            pending_exec = still;
+        }
+    }
 }
